@@ -249,6 +249,87 @@ class ClosureDesugar(Rewrite):
         return text
 
 
+class LetChain(Rewrite):
+    """R-letchain: `if let P1 = E1 && let P2 = E2 && C { A } [else { B }]` =>
+    `match E1 { P1 => match E2 { P2 => if C { A } else { B }, _ => { B } }, _ => { B } }` -- the language-defined meaning of a
+    let-chain (B is repeated textually; exactly one copy runs). Verus rejects let-chains even with --edition 2024 (measured).
+    Only chains that contain a top-level `&&` are rewritten; plain `if let` is left alone."""
+    rule = 'R-letchain'
+    def __init__(self, count='*'):
+        self.count = count
+
+    def _one(self, text):
+        toks = code_tokens(text)
+        for i, t in enumerate(toks):
+            if t.text != 'if' or i + 1 >= len(toks):
+                continue
+            # parse conditions
+            conds = []
+            j = i + 1
+            ok = True
+            has_let = False
+            while True:
+                if toks[j].text == 'let':
+                    has_let = True
+                    k = j + 1; d = 0
+                    while not (toks[k].text == '=' and d == 0 and toks[k + 1].text != '=' ):
+                        if toks[k].text in OPEN: d += 1
+                        elif toks[k].text in CLOSE: d -= 1
+                        k += 1
+                    pat = text[toks[j + 1].start:toks[k - 1].end]
+                    e0 = k + 1
+                    k = e0; d = 0
+                    while not (d == 0 and (toks[k].text == '{' or (toks[k].text == '&' and toks[k + 1].text == '&' and toks[k + 1].start == toks[k].end))):
+                        if toks[k].text in ('(', '['): d += 1
+                        elif toks[k].text in (')', ']'): d -= 1
+                        elif toks[k].text == '{' : d += 1
+                        elif toks[k].text == '}': d -= 1
+                        k += 1
+                    conds.append(('let', pat, text[toks[e0].start:toks[k - 1].end]))
+                else:
+                    e0 = j; k = j; d = 0
+                    while not (d == 0 and (toks[k].text == '{' or (toks[k].text == '&' and toks[k + 1].text == '&' and toks[k + 1].start == toks[k].end))):
+                        if toks[k].text in ('(', '['): d += 1
+                        elif toks[k].text in (')', ']'): d -= 1
+                        k += 1
+                    conds.append(('bool', None, text[toks[e0].start:toks[k - 1].end]))
+                if toks[k].text == '{':
+                    body_open = k; break
+                j = k + 2
+            if not has_let or len(conds) < 2:
+                continue
+            body_close = match_close(toks, body_open)
+            body = text[toks[body_open].start:toks[body_close].end]
+            end = toks[body_close].end
+            els = '{}'
+            if body_close + 1 < len(toks) and toks[body_close + 1].text == 'else':
+                if toks[body_close + 2].text != '{':
+                    raise AnchorLost('R-letchain: `else if` after a let-chain is not supported')
+                ec = match_close(toks, body_close + 2)
+                els = text[toks[body_close + 2].start:toks[ec].end]
+                end = toks[ec].end
+            out = body
+            for kind, pat, expr in reversed(conds):
+                if kind == 'let':
+                    out = f'match {expr} {{ {pat} => {out}, _ => {els} }}'
+                else:
+                    out = f'{{ if {expr} {out} else {els} }}'
+            return text[:t.start] + out + text[end:], True
+        return text, False
+
+    def apply(self, text, log):
+        n = 0
+        while True:
+            text, did = self._one(text)
+            if not did: break
+            n += 1
+        ok = (self.count == '*') or (self.count == '+' and n >= 1) or (self.count == n)
+        if not ok:
+            raise AnchorLost(f'rewrite R-letchain expected {self.count} let-chain(s) but found {n}')
+        log.append((self.rule, 'let-chain desugared to nested match', n))
+        return text
+
+
 class DropNestedFn(Rewrite):
     """Remove a nested `fn name` item from a body (it is extracted separately, hoisted)."""
     rule = 'R-hoist'
